@@ -24,7 +24,10 @@ RULE = (
     "DataIndex.open on a scratch file by a generated HISTORY (sets in random order, overwritten values, ghost "
     "entries set and removed again by del / pop / delete_node, explicit entries on implicit directories removed "
     "again, reads, commits, close + reopen) whose final map is the case, the model runs on final_map(history); a "
-    "`roots` stream; a separate malformed stream (equal "
+    "`roots` stream; a `lazy` stream: pairs of directory trees stored as tree objects, the index holding only the "
+    "unloaded directory entry at () / (data,) / (a,b) on one or both sides (other side: the explicit twin, or "
+    "None, or the same tree), diffed with and without with_unchanged, renames, hash_only/meta_only, roots at "
+    "or below the mount, and shallow (oracle only); a separate malformed stream (equal "
     "directory hash over different children, file entries with children, directory entries without "
     "isdir metadata) where only model = implementation is required; the three _diff_* deciders on the "
     "full abstract product 31 x 31 entries x 32 flag sets (+ 8 x 8 metas x 4 cmp keys, 6 x 6 hashes), each "
@@ -32,15 +35,19 @@ RULE = (
     "non-nodes. A diff case is non-trivial when it reports >= 2 changes of >= 2 kinds or a rename."
 )
 ASSUMPTIONS = [
-    "DataIndex in memory (PyGTrie) or SQLite backed (DataIndex.open), with an empty storage map: no lazy loading, "
-    "so DataIndexDirError/UNKNOWN cannot arise and `with_unknown` is left out of the proved core",
+    "DataIndex in memory (PyGTrie) or SQLite backed (DataIndex.open); lazy loading only in the `lazy` stream: a "
+    "directory entry (isdir, .dir hash, not loaded) whose tree object is in an ObjectStorage of the storage map, "
+    "mounted at the ROOT key () or below a key, always loadable - so DataIndexDirError/UNKNOWN cannot arise and "
+    "`with_unknown` is left out of the proved core; the model and the oracle run on the explicitly built twin "
+    "(what index.py:_load_from_object_storage creates); shallow runs of lazy pairs (the directory is never "
+    "loaded) are judged by the oracle only",
     "an index is its final key -> entry map (C08_history_final_map / _final_only); on-disk sides use entries whose "
     "observable form survives to_dict/from_dict (no mtime, no all-default Meta on an unhashed entry, no falsy "
     "HashInfo object) so that a cached and a re-read entry look the same; delete_node is used on leaves only",
     "the default callback; `roots` other than [()]: modelled (diff_core_roots), tied by correspondence + the "
     "restricted flat-reference oracle, proved for shallow=False (C08_roots_closed / _multi / _exact; overlapping "
-    "roots report a sub-tree once per covering root: C08_roots_once_refuted); roots with shallow=True: "
-    "correspondence only",
+    "roots report a sub-tree once per covering root: C08_roots_once_refuted) and for any options incl. shallow "
+    "(C08_roots_closed_gen / _keys_once_gen / _shallow)",
     "entry.key equals the key the entry is stored under",
     "Meta / HashInfo equality is attrs equality over the eq=True fields (generated meta_eqb / hashinfo_eqb) with "
     "values that are reflexive under == (no NaN mtime); meta_cmp_key is a pure function of the Meta",
